@@ -138,10 +138,20 @@ DEPTH_RE = re.compile(r"^The depth of the complete state graph search is (\d+)")
 COV_RE = re.compile(r"^<(\w+) line \d+, col \d+ to line \d+, col \d+ of module (\w+)>: (\d+):(\d+)")
 
 
-def run_tlc(model, cfg=None, name=None, workers=8, timeout=3600, simulate=None, depth=None,
-            env_extra=None, xmx="8g", coverage=True, deque=False):
+TIER = {"name": "quick"}
+
+
+def run_tlc(model, cfg=None, name=None, workers=8, timeout=None, simulate=None, depth=None,
+            env_extra=None, xmx=None, coverage=True, deque=False):
     """Run TLC on spec/<model>.tla with spec/<cfg>; split the output into case lines
     (JSON objects printed with PrintT(ToJson(..))) and the log."""
+    thorough = TIER["name"] == "thorough"
+    if xmx is None:
+        xmx = "24g" if thorough else "8g"
+    if timeout is None:
+        timeout = 6 * 3600 if thorough else 3600
+    if thorough and workers == 8:
+        workers = 12
     name = name or os.path.basename(model)
     tla = os.path.join(SPEC, model + ".tla")
     cfgp = os.path.join(SPEC, (cfg or model) + ".cfg")
